@@ -443,6 +443,12 @@ class Run:
             self.cov["notes"] = self.notes
         for kf in self.known:
             print("KNOWN-FINDING: property=%s %s" % (self.prop, kf["what"]))
+        # every finding listed for this property is printed on every run, whether or not this run's inputs reached it
+        # (the ones reached above carry their replay evidence; the others are marked)
+        seen_ids = {k["id"] for k in self.known}
+        listed_not_seen = [k for k in known_findings().get("findings", []) if k["property"] == self.prop and k["id"] not in seen_ids]
+        for kf in listed_not_seen:
+            print("KNOWN-FINDING: property=%s %s [listed in known_findings.json; not re-observed by this run's inputs]" % (self.prop, kf["what"]))
         ev = {
             "property_id": self.prop, "tier": self.tier, "seed": self.seed, "level": self.level,
             "coverage": self.cov, "assumptions": self.assumptions,
@@ -450,6 +456,8 @@ class Run:
         }
         if self.known:
             ev["known_findings_matched"] = [k["id"] for k in self.known]
+        if listed_not_seen:
+            ev["known_findings_listed_not_reobserved"] = [k["id"] for k in listed_not_seen]
         with open(os.path.join(EVID, self.prop + ".json"), "w") as f:
             json.dump(ev, f, indent=1, default=str)
         seen = set()
